@@ -30,7 +30,7 @@ SPEC = dict(
           "/c; match functions: prefix under the name /a, major-version under /a/1, alias under /b that does not match its own "
           "name), then 1-3 rounds of: 0-2 handler mutations (set/replace/remove, through the host or silently through Host.Mux()), "
           "push propagated or not, dialer knowledge kept|cleared|injected, optional reconnect, 1-3 concurrent NewStream calls with "
-          "ordered lists of 1-4 IDs out of 9 (Write then Read | CloseWrite before Read | ended without I/O | first Read racing the first Write from another task | read-only client: CloseWrite as the very first operation, then Read; Close | Reset), optionally 1-2 "
+          "ordered lists of 1-4 IDs out of 9 (Write then Read | CloseWrite before Read | ended without I/O | first Read racing the first Write from another task | read-only client: CloseWrite as the very first operation, then Read | round trip, idle in virtual time for twice the listener's negotiation timeout (drawn 10|1|2|3 s), second round trip on the same stream; Close | Reset), optionally 1-2 "
           "mutations racing with the opens; strata drawn first: 3/5 fault-free with real resource managers, 1/5 one resource-manager refusal of SetProtocol on "
           "either side (liveness oracles off), 1/5 fault-free with network.NullResourceManager on both nodes (a stream scope that "
           "accepts repeated SetProtocol calls; scope oracles off). non-trivial = at least one open verified end-to-end (echo tagged by the model-approved "
@@ -43,6 +43,7 @@ SPEC = dict(
             "unused-stream-lazy", "unused-stream-eager", "handler-ran-for-unused-stream", "close-write-before-read",
             "first-read-races-first-write-lazy", "first-read-races-first-write-eager",
             "read-only-client-lazy", "read-only-client-eager", "null-resource-manager",
+            "second-round-trip-after-idle-lazy", "second-round-trip-after-idle-eager",
             "blank-dialer", "blank-listener"],
     real=["ALL of the following run as tasks of the seeded scheduler (instrumented: every lock, channel operation, select, go statement is a scheduling point)",
           "basic host (NewStream eager + lazy/optimistic path, newStreamHandler, SetStreamHandler/Match, RemoveStreamHandler), blank host",
